@@ -187,34 +187,34 @@ class GenProp(Prop):
         if any(t != "pair" for t in obs["edge_types"]):
             f.append(f"row-not-a-pair: {obs['edge_types']}")
         calls = obs["calls"]
-        # rows sharing an id are exactly (and in order) the edges one build call returned
+        # rows sharing an id are exactly the edges one build call returned, each with the name its position prescribes - as multisets:
+        # in which order the motifs, or the edges of one motif, are written into the columns is not part of the property
+        key = lambda x: json.dumps(x, sort_keys=True, default=repr)
         groups = collections.OrderedDict()
-        for e, m in zip(E, M):
-            groups.setdefault(m, []).append(e)
+        for e, t, m in zip(E, Tp, M):
+            groups.setdefault(key(m), []).append((key(e), key(t)))
         nonempty = [c for c in calls if c["result"]]
-        if len(groups) != len(nonempty) or len(set(M)) != len(groups):
-            f.append(f"id-groups: {len(groups)} distinct ids for {len(nonempty)} motif instances with edges")
-        else:
-            for (m, rows), c in zip(groups.items(), nonempty):
-                if rows != c["result"]:
-                    f.append("id-groups: rows sharing a motif id are not the edges returned by one build call")
-                    break
-        # (what the ids ARE - consecutive integers from 0 in this code - is compared with the model, not demanded by the property:
-        #  any scheme that gives distinct instances distinct ids satisfies it)
-        # names
-        pos = 0
-        for c in calls:
+        want_groups = []
+        for c in nonempty:
             n = len(c["result"])
-            got = Tp[pos:pos + n]
             if case["kind"] == "fast":
-                want = [case["names"][c["top"]]] * n
+                names = [case["names"][c["top"]]] * n
             else:
                 nm = case["names"][c["top"]]
-                want = [nm] if isinstance(nm, str) else list(nm)
-            if got != want:
-                f.append(f"names: rows of a motif of type {c['top']} carry {got[:4]} instead of {want[:4]}")
-                break
-            pos += n
+                names = [nm] if isinstance(nm, str) else list(nm)
+            if len(names) != n:
+                names = (names + [None] * n)[:n]
+            want_groups.append(sorted((key(e), key(t)) for e, t in zip(c["result"], names)))
+        got_groups = [sorted(g) for g in groups.values()]
+        if len(got_groups) != len(want_groups):
+            f.append(f"id-groups: {len(got_groups)} distinct ids for {len(nonempty)} motif instances with edges")
+        elif sorted(got_groups) != sorted(want_groups):
+            if sorted([e for e, _ in g] for g in got_groups) != sorted([e for e, _ in g] for g in want_groups):
+                f.append("id-groups: rows sharing a motif id are not the edges returned by one build call")
+            else:
+                bad = next(g for g in sorted(got_groups) if g not in want_groups)
+                f.append(f"names: the rows of one motif carry {[json.loads(t) for _, t in bad][:4]}, which is not what its topology "
+                         f"(or the matching positions of its naming callback) prescribes")
         return f
 
     def nontrivial(self, case, obs):
